@@ -60,7 +60,7 @@ func (e *vExpr) String() string {
 	case "lit":
 		return `"x"`
 	case "lit2":
-		return `"a\"\\b"`
+		return `"a\"\\b%d"`
 	case "prod":
 		return fmt.Sprintf("P%d", e.prod)
 	case "uni":
@@ -278,7 +278,7 @@ func vBuild(e *vExpr, prods []*strct) node {
 	case "lit":
 		return &literal{s: "x", t: lexer.EOF}
 	case "lit2":
-		return &literal{s: "a\"\\b", t: lexer.EOF}
+		return &literal{s: "a\"\\b%d", t: lexer.EOF}
 	case "prod":
 		return prods[e.prod]
 	case "eof":
